@@ -81,7 +81,7 @@ fn pick_api(rng: &mut Rng, allow_wrapper: bool) -> Api {
     if allow_wrapper && rng.chance(1, 6) {
         Api::Wrapper
     } else {
-        Api::Rate(gen::rate(rng), *rng.pick(&[EngineKind::NoSimd, EngineKind::Avx2, EngineKind::Default, EngineKind::Ssse3]))
+        Api::Rate(gen::rate(rng), *rng.pick(&[EngineKind::NoSimd, EngineKind::Avx2, EngineKind::Default, EngineKind::Ssse3, EngineKind::Naive]))
     }
 }
 
